@@ -38,6 +38,7 @@ def execute(case):
         inbox = {}
         started = []
         probes = {}
+        premade = {}         # index of the later step -> Context made when its parent was current
 
         def idof(c):
             return 0 if c is None else ids.get(id(c), -1)
@@ -87,7 +88,9 @@ def execute(case):
 
             async def level(t, cmd):
                 p = cmd["p"]
-                ctx = Context(ctxs[p]) if p else Context()
+                # an explicit parent that is a context of the task's own stack is given in one of two ways: Context(parent) now, or a
+                # Context() made earlier, while that parent was the task's current context, kept aside and entered only now
+                ctx = premade.pop(cmd["i"]) if cmd.get("use_premade") else (Context(ctxs[p]) if p else Context())
                 cid = len(ctxs) + 1
                 ctxs[cid] = ctx
                 ids[id(ctx)] = cid
@@ -96,6 +99,8 @@ def execute(case):
                     with CancelScope() as scope:
                         async with ctx:
                             log(ev="enter", t=t, c=cid, explicit=bool(p), p=p, parent=idof(ctx.parent))
+                            for later in cmd.get("premake", ()):
+                                premade[later] = Context()
                             how = await serve(t)
                             if how == "exc":
                                 raise Boom()
@@ -125,9 +130,22 @@ def execute(case):
                 for t in sorted(started):
                     log(ev="cur", t=t, obs=probes.get(t, -3))
 
+            # plan: which explicit-parent entries use a context made earlier (same task, parent still on its stack)
+            plan = [dict(step, i=i) for i, step in enumerate(hist)]
+            stacks, entered_at, n = collections.defaultdict(list), {}, 0
+            for i, step in enumerate(plan):
+                if step["a"] == "enter":
+                    n += 1
+                    if step["p"] and step["p"] in stacks[step["t"]] and rnd.random() < 0.5:
+                        step["use_premade"] = True
+                        plan[entered_at[step["p"]]].setdefault("premake", []).append(i)
+                    stacks[step["t"]].append(n)
+                    entered_at[n] = i
+                elif step["a"] == "leave":
+                    stacks[step["t"]].pop()
             start_task(1)
             await vclock.quiescent()
-            for i, step in enumerate(hist):
+            for i, step in enumerate(plan):
                 cmd = dict(step)
                 if cmd["a"] == "leave" and i < len(hist) - 1:
                     cmd["how"] = rnd.choice(["return", "exc", "cancel", "tdraise"])   # the state does not depend on how earlier blocks ended
@@ -159,6 +177,11 @@ def run(tier: str, seed: int) -> core.Report:
     behaviours = [p["h"] for p in res.printed()]
     if len(behaviours) != res.generated - 1:
         raise core.MachineryError(f"MC_Cur exported {len(behaviours)} behaviours for {res.generated} generated states")
+    # the exported path to a transition is one of many: a block entered in a particular way (explicit parent, context made earlier)
+    # is only ever the last step of its behaviour. Every behaviour that ends by entering a block is therefore also run with that block
+    # left again (Leave is enabled whenever the stack is not empty, so the longer sequence is a behaviour of Cur as well).
+    hows = ["return", "exc", "cancel", "tdraise"]
+    behaviours += [h + [{"a": "leave", "t": h[-1]["t"], "how": hows[(seed + k) % 4]}] for k, h in enumerate(behaviours) if h and h[-1]["a"] == "enter"]
     cases = []
     for i, h in enumerate(behaviours):
         for be in vclock.BACKENDS:
@@ -188,7 +211,8 @@ def run(tier: str, seed: int) -> core.Report:
         raise core.MachineryError(f"vacuous: monitor clauses never exercised: {sorted(need - set(hits))}")
     rep.distinct_nontrivial = len({json.dumps(h) for h in behaviours if len({s["t"] for s in h}) >= 2})
     rep.rule = (f"every transition of the bounded Cur graph ({res.distinct} configurations of <= 3 tasks, nesting <= 3) with a path to it "
-                "= one behaviour, executed on asyncio and trio with one real task per specification task; current_context() of every task observed "
+                "= one behaviour (those ending with an entry also continued by leaving that block; explicit parents from the task's own stack "
+                "given as Context(parent) or as a context made while that parent was current), executed on asyncio and trio with one real task per specification task; current_context() of every task observed "
                 "after every step; non-trivial = behaviours involving at least two tasks; distinct by step sequence")
     rep.extra.update({"behaviours": len(behaviours), "monitor_hits": dict(hits), "executions_with_unexpected_driver_events": crashes})
     rep.samples = [behaviours[len(behaviours) // 2], behaviours[-1]]
